@@ -376,6 +376,70 @@ def freed_once_rule(fx, ck, name="R7.returned-handle-freed-once"):
     return n
 
 
+def loop_free_sites(fx, files):
+    """[(fn, call, ok, why)]: a `Box::from_raw` inside a loop frees one element of a collection per turn.  When the collection was filled by the
+    host (one `add` call per element), nothing makes its elements distinct, so the same handle stored twice is freed twice - and read after
+    the first free.  Discharged when the collection is built in the same function from fresh boxes (`map(|..| Box::into_raw(..))`), or when a
+    membership test / dedup on pointers of that type (`contains`, `dedup`, a set `insert`) is made in the function."""
+    import loops as L
+    from c09 import ancestors
+    kids = {}
+    for g in fx.fns.values():
+        if g.closure:
+            kids.setdefault(g.parent, []).append(g)
+    for f in sorted(fx.fns.values(), key=lambda g: g.path):
+        if not f.file.startswith(files) or f.derived:
+            continue
+        lp = L.natural_loops(f)
+        if not lp:
+            continue
+        inl = set()
+        for hd, body in lp:
+            inl |= set(body)
+        for bi, t in f.calls():
+            if not t[1].get("d", "").endswith("Box::<T>::from_raw") or bi not in inl or not t[2] or t[2][0][0] not in ("c", "m"):
+                continue
+            a = t[2][0][1][0]
+            pty = f.locals[a]
+            anc = ancestors(f, a)
+            srcs = [(t2[1].get("d") or t2[1].get("u") or "") for b2, t2 in f.calls() if not t2[3][1] and t2[3][0] in anc]
+            if not any(s_.endswith("Iterator>::next") or s_.endswith("Iterator::next") for s_ in srcs):
+                continue
+            fresh = any(s_.endswith("Iterator::map") for s_ in srcs) and \
+                any((t3[1].get("d") or "").endswith("Box::<T>::into_raw") for g in kids.get(f.parent, []) for _, t3 in g.calls())
+            dedup = False
+            for b2, t2 in f.calls():
+                d2 = t2[1].get("d") or ""
+                if d2.endswith(("::contains", "::dedup", "::binary_search")) or (d2.endswith("::insert") and "Set<" in d2):
+                    tys = set()
+                    for o in t2[2]:
+                        if o[0] in ("c", "m"):
+                            tys.add(fx.tys(f.locals[o[1][0]]))
+                    if any(fx.tys(pty) in x for x in tys):
+                        dedup = True
+            yield f, t, fresh or dedup, ("fresh boxes" if fresh else "deduplicated" if dedup else "no membership test")
+
+
+def loop_free_rule(fx, ck, name="R11.collected-handles-freed-once"):
+    ck.rule(name, "a Box::from_raw that frees the elements of a collection in a loop acts on distinct pointers: the collection is built from fresh boxes in the same "
+            "function, or a membership test / dedup on that pointer type is made first", floor=2)
+    n = 0
+    for f, t, ok, why in loop_free_sites(fx, ("src/ffi",)):
+        n += 1
+        ck.instance(name, "%s: %s" % (f.parent, why), F.short_span(t[6]), ok=ok)
+        if not ok:
+            ck.finding(name, "%s/%s" % (name, f.parent), F.short_span(t[6]),
+                       "`%s` frees every element of a host-filled collection of handles in a loop (%s) with no membership test: a handle the host stored twice "
+                       "(one value exported under two names) is read after it was freed and freed again" % (f.parent, F.short_span(t[6])))
+    ck.anchor(n >= 2, "frees of collection elements inside loops in src/ffi (found %d; hand count 2: the callback trampoline's arguments, the module builder's values)" % n)
+    got = sorted((f.path.split("::")[-1], ok) for f, t, ok, why in loop_free_sites(F.load_fixture(), ("src/lib.rs",)) if f.path.startswith("c17loopfree::"))
+    want = [("bad_drain", False), ("good_drain", True), ("good_fresh", True)]
+    if got != want:
+        ck.closed_fail.append("R11 control failed: fixture reports %s (want %s)" % (got, want))
+    ck.note("R11 controls: fixture bad_drain (frees each element of its argument) reported; good_drain (contains before push, freed afterwards) and good_fresh (map + Box::into_raw) silent")
+    return n
+
+
 def state_rule(fx, prefix="ffi::", bare=("value::JsValue", "gc::Gc<")):
     """[(adt, field, type, ok)]: a struct / enum of the API layer lives from one call to a later one; a script value stored in one as a bare
     JsValue / Gc is seen by no guard (the collector does not trace these types), so it must be stored as a RuntimeValue (value + guard) or as a handle"""
@@ -468,6 +532,7 @@ def run(tier):
     arraylen.rule(fx, ck)
     borrowed_error_rule(fx, ck)
     freed_once_rule(fx, ck)
+    loop_free_rule(fx, ck)
     ck.rule("R8.api-state-holds-guarded-values", "no struct or enum of src/ffi stores a bare JsValue / Gc: script values are kept between calls as RuntimeValue (value + guard) or as handles", floor=30)
     for adt8, fld8, ty8, ok8 in state_rule(fx):
         ck.instance("R8.api-state-holds-guarded-values", "%s.%s: %s" % (adt8, fld8, ty8), None, ok=ok8, nontrivial=not ok8)
